@@ -583,6 +583,9 @@ class ExperimentPackage(StorageStructurePathResolver):
                 else:
                     manifest = {}
 
+                # VV: Do not create anything for a manifest with targets that end up outside targetPath
+                experiment.model.frontends.flowir.Manifest(manifest, validate=True)
+
                 if not os.path.exists(targetPath):
                     os.makedirs(targetPath)
 
